@@ -211,8 +211,11 @@ PROPS = {
     "C01": pool_prop(["bound_ready_home", "bound_notready_no_fallback", "unknown_key", "bind_bound_key_noop", "bind_new_key", "unbind_removes", "unbind_other", "lookup_preserves_binding"]),
     "C02": pool_prop(["streams_exact", "streams_nonneg", "streams_zero_when_idle", "run_inv", "leastBusy_spec", "leastBusy_first_on_tie", "below_watermark_places"], ["placement and increment are treated as one atomic step (exact for picks on one picker; picks on different pickers may interleave scan and increment)"]),
     "C03": pool_prop(["growth_only_when_saturated", "at_max_places_anyway", "below_watermark_places"], ["size bound: minSize <= maxSize and no Shutdown report for a current pool member (known finding K6)"]),
-    "C04": pool_prop([]),
-    "C05": pool_prop([]),
+    "C04": dict(pool_prop([]), theorems=[("GcpVerif.Proofs.PoolPublish", "GcpVerif.Pool." + n) for n in
+                ["counters_exact", "pool_connections_only", "tables_run", "published_matches_pool", "err_picker_iff_tf", "pub_run"]],
+                leanchecker=["GcpVerif.Proofs.PoolPublish"]),
+    "C05": dict(pool_prop([]), theorems=[("GcpVerif.Proofs.PoolTables", "GcpVerif.Pool." + n) for n in
+                ["pool_connections_only", "tables_run"]]),
     "C06": pool_prop_plus([], [("GcpVerif.Proofs.Sync", "GcpVerif.Sync.c06_no_self_acquire"), ("GcpVerif.Proofs.Sync", "GcpVerif.Sync.c06_order_acyclic")], ["wall-clock bounds are observed by the harness watchdog (3 s per call), not proved"]),
     "C07": pool_prop(["disabled_never_refreshes", "response_resets", "isResponse_iff", "stale_call_ignored", "refresh_trigger", "window_exponential", "window_monotone_or_saturated", "refresh_once"], ["unresponsive_detection_ms * 2^k < 2^32 (the Go code computes the window in uint32; known finding K2)"]),
     "C08": pool_prop(["fallback_sticky", "fallback_new", "bound_ready_home", "lookup_preserves_binding"]),
